@@ -112,6 +112,9 @@ func (l *Linter) lintDeclareStatement(stmt *ast.DeclareStatement, ctx *context.C
 		}
 		l.Error(err.Match(DECLARE_STATEMENT_DUPLICATED))
 	}
+	if l.ignore.IsEnable(UNUSED_VARIABLE) {
+		l.ignoredUnusedVariables[stmt.GetMeta()] = true
+	}
 
 	// Lint the value expression if present
 	if stmt.Value != nil {
